@@ -108,22 +108,22 @@ func (r *checkRun) writeEvidence(results []hresT, validated, sampled int, inconc
 			"samples":                       samples,
 			"explanation": "bounded symbolic execution of the real code (go/ssa of /repo's working tree) with an SMT solver deciding every branch and every assertion; " +
 				"states = symbolic paths explored, transitions = branch/scheduler decisions taken; each assertion is the query pc AND NOT(assertion)",
-			"assertion_queries":   asserts,
-			"assertions_discharged": discharged,
+			"assertion_queries":                   asserts,
+			"assertions_discharged":               discharged,
 			"paths_sampled_for_native_validation": sampled,
-			"scheduler_decision_points": schedPoints,
-			"solver_queries":      queries,
-			"solver_s":            round2(solverS),
-			"solver":              "z3 4.8.12 (-in, push/pop), per-query timeout " + fmt.Sprint(r.cfg.TimeoutMs) + " ms (0 = default 20000)",
-			"harnesses":           perHarness,
-			"functions_encoded":   fnList,
-			"stubs_used":          stubList,
-			"source_sha256_16":    fileHashes,
-			"reach_witnesses":     reachList,
-			"known_findings_seen": kfs,
-			"inconclusive":        dedupe(inconclusive),
-			"broken":              dedupe(broken),
-			"bounds":              r.boundsNote(),
+			"scheduler_decision_points":           schedPoints,
+			"solver_queries":                      queries,
+			"solver_s":                            round2(solverS),
+			"solver":                              "z3 4.8.12 (-in, push/pop), per-query timeout " + fmt.Sprint(r.cfg.TimeoutMs) + " ms (0 = default 20000)",
+			"harnesses":                           perHarness,
+			"functions_encoded":                   fnList,
+			"stubs_used":                          stubList,
+			"source_sha256_16":                    fileHashes,
+			"reach_witnesses":                     reachList,
+			"known_findings_seen":                 kfs,
+			"inconclusive":                        dedupe(inconclusive),
+			"broken":                              dedupe(broken),
+			"bounds":                              r.boundsNote(),
 		},
 		"assumptions": r.assumptions(stubList),
 		"wall_s":      round2(time.Since(r.t0).Seconds()),
